@@ -283,6 +283,9 @@ NoEsc(v, st, ev) ==
              realChange == effS(old, k) # effS(new, k) \/ effM(old, k) # effM(new, k) IN
          /\ (rn # Absent /\ rn # ro /\ realChange => rn <= s)
          /\ (ro # Absent /\ rn # ro /\ realChange => ro <= s)
+         \* the level needed to send the type as a message event: an entry that is added, changed or removed must
+         \* neither move it above the sender's level nor move it at all if it is above the sender's level
+         /\ ((ro # Absent \/ rn # Absent) /\ effM(old, k) # effM(new, k) => (effM(new, k) <= s /\ effM(old, k) <= s))
     /\ (NotificationsChecked(v) =>
           \A k \in NKeys : Eff(old.notif[k], R50) # Eff(new.notif[k], R50)
                               => (Eff(new.notif[k], R50) <= s /\ Eff(old.notif[k], R50) <= s))
